@@ -292,9 +292,31 @@ def n2_tempo(prog: Program, chk: Check) -> None:
                 and isinstance(st.value, ast.Call) and st.value.args:
             a0 = st.value.args[0]
             txt = norm(a0)
-            order_ok = (isinstance(a0, ast.Call) and dotted(a0.func) == "list" and a0.args
-                        and isinstance(a0.args[0], ast.Call)
-                        and call_name(a0.args[0]) == "reversed") or txt.endswith("[::-1]")
+            # number of reversals between the list the loop appends to (dk ascending) and the
+            # argument: list(reversed(x)), x[::-1], an unconditional x.reverse() before the use
+            flips, e_ = 0, a0
+            for _ in range(6):
+                if isinstance(e_, ast.Call) and dotted(e_.func) in ("list", "tuple") and len(e_.args) == 1:
+                    e_ = e_.args[0]
+                elif isinstance(e_, ast.Call) and call_name(e_) == "reversed" and len(e_.args) == 1:
+                    flips, e_ = flips + 1, e_.args[0]
+                elif isinstance(e_, ast.Subscript) and norm(e_).endswith("[::-1]"):
+                    flips, e_ = flips + 1, e_.value
+                elif isinstance(e_, ast.Name):
+                    d_ = du.unique_value(du.node_of(st), e_.id)
+                    if d_ is not None and d_.value is not None and not d_.sel and \
+                            not isinstance(d_.value, (ast.List, ast.ListComp)):
+                        e_ = d_.value
+                    else:
+                        break
+                else:
+                    break
+            if isinstance(e_, ast.Name):
+                top = list(u.node.body)
+                upto = next((i for i, b in enumerate(top) if any(y is st for y in ast.walk(b))), len(top))
+                flips += sum(1 for b in top[:upto] if isinstance(b, ast.Expr)
+                             and isinstance(b.value, ast.Call) and method_call(b.value) == (e_.id, "reverse"))
+            order_ok = flips % 2 == 1
             chk.add("N2", u, f"MPO order: {txt}", bool(order_ok),
                     "the stored influences must run from the furthest separation (left) to dk = 0 "
                     "(right): compute_system_step takes the last n and replaces the first", st)
@@ -490,17 +512,34 @@ def n2_pt(prog: Program, chk: Check) -> None:
             and isinstance(d.value, (ast.Compare, ast.Call))
             and any(dotted(y) == "self._num_infl" for y in ast.walk(d.value))
             and any(dotted(y) == "self._step" for y in ast.walk(d.value))]
-    if len(ends) != 1:
-        raise AnalysisError("N2: PtTempoBackend.compute_step no longer defines its end-phase "
-                            "flag once (a comparison of self._step with self._num_infl)")
-    flag = ends[0].name
-    ev = ends[0].value
+    flag, at_end = None, None
+    if len(ends) == 1:
+        flag = ends[0].name
+        ev = ends[0].value
+        at_end = ends[0].node
+    else:
+        # no flag local: the comparison stands in the test of the if statement itself
+        tests = [x.test for x in walk_local(u.node) if isinstance(x, ast.If)
+                 and any(dotted(y) == "self._num_infl" for y in ast.walk(x.test))
+                 and any(dotted(y) == "self._step" for y in ast.walk(x.test))]
+        if ends or len(tests) != 1:
+            raise AnalysisError("N2: PtTempoBackend.compute_step no longer decides its end phase "
+                                "once (a comparison of self._step with self._num_infl)")
+        ev = tests[0]
+        at_end = du.node_of(ev)
+    ev_whole = ev
+    negated = False
+    while isinstance(ev, ast.UnaryOp) and isinstance(ev.op, ast.Not):
+        ev, negated = ev.operand, not negated        # `if not <end phase>: grow else: shorten`
+    ev_inner = ev
+    if at_end is None:
+        at_end = du.node_of(ev_inner)       # the flow graph keeps the operand of `not` as the test
     if isinstance(ev, ast.Call) and call_name(ev) == "bool" and len(ev.args) == 1:
         ev = ev.args[0]
     ok, det = False, f"condition {norm(ev)} is not a single comparison"
     if isinstance(ev, ast.Compare) and len(ev.ops) == 1:
-        l = case.form(ev.left, ends[0].node, leaf)
-        r = case.form(ev.comparators[0], ends[0].node, leaf)
+        l = case.form(ev.left, at_end, leaf)
+        r = case.form(ev.comparators[0], at_end, leaf)
         if l is not None and r is not None:
             diff = l - r
             op = type(ev.ops[0])
@@ -516,13 +555,17 @@ def n2_pt(prog: Program, chk: Check) -> None:
                 ok = diff == -(want - ONE)
             det = f"lhs - rhs = {diff} with {op.__name__} (expected the incremented step > " \
                   f"N - NUM_INFL + 1, i.e. {want} > 0)"
-    chk.add("N2", u, f"end phase: {norm(ends[0].value)}", ok, det, ends[0].value)
+    chk.add("N2", u, f"end phase: {norm(ev_whole)}", ok, det, ev_whole)
     calls = _influence_calls(g)
     if not calls:
         raise AnalysisError("N2: PtTempoBackend.compute_step no longer computes an influence")
     for phase in (True, False):
         def decide(nid, e, phase=phase):
-            if isinstance(e, ast.Name) and e.id == flag:
+            if flag is not None and isinstance(e, ast.Name) and e.id == flag:
+                return phase
+            if flag is None and norm(e) == norm(ev_whole):
+                return (not phase) if negated else phase
+            if flag is None and norm(e) == norm(ev_inner):
                 return phase
             return pc.none_decider(_is("self._dkmax"), False)(e)
         case = pc.Case(du, decide, f"end_phase={phase}")
